@@ -166,6 +166,37 @@ def runs(chk, tier, exe, d):
                 chk.violation("run:%s:%s" % ("sequence" if v["id"].startswith("seq") else v["id"] if not v["id"].startswith("rand") else "random-program", v["why"]),
                               "hexsim run %s diverges from the HexISA trace at instruction %d: %s" % (v["id"], v["at"], v["why"]),
                               {"run.ndjson": src[i] + "\n", "how.txt": "RECS=run.ndjson OUT=o.ndjson tlc -config IsaRunV.cfg IsaRunV\n"})
+    # the EXECUTABLE: a sample of the runs just validated (those that write to the console or to file streams come first) is repeated
+    # with the hexsim binary; console bytes, the simout files it leaves behind and the exit status must be the validated ones
+    import struct, subprocess
+    tdir = corpus.tools()
+    cands = []
+    for fn, nl in files:
+        for ln in open(fn):
+            if '"status":"exit"' in ln and len(ln) < 200000:
+                r = json.loads(ln)
+                if r['img'] and max(a for a, _ in r['img']) < 4000:
+                    cands.append(r)
+    cands.sort(key=lambda r: (-min(len(r['fout']), 1), -min(len(r['out']), 1)))
+    nexe = 0
+    for r in cands[:(60 if tier == "quick" else 1500)]:
+        top = max(a for a, _ in r['img']) + 1
+        words = [0] * top
+        for a, v in r['img']:
+            words[a] = v & 0xFFFFFFFF
+        wd = os.path.join(d, "exe"); shutil.rmtree(wd, ignore_errors=True); os.makedirs(wd)
+        open(os.path.join(wd, "p.bin"), "wb").write(struct.pack('<I', top) + b"".join(struct.pack('<I', w) for w in words) + struct.pack('<II', 0, 0))
+        p = vlib.sh([os.path.join(tdir, "hexsim"), "p.bin"], cwd=wd, input=bytes(r['input']), timeout=60)
+        nexe += 1
+        got_f = [[k + 1, c] for k in range(8) if os.path.exists(os.path.join(wd, "simout%d" % k)) for c in open(os.path.join(wd, "simout%d" % k), "rb").read()]
+        want = (r['ret'] & 0xFF, bytes(c for _, c in r['out']), sorted(map(tuple, r['fout'])))
+        got = (p.returncode, p.stdout, sorted(map(tuple, got_f)))
+        if got != want:
+            what = "exit status" if got[0] != want[0] else "console output" if got[1] != want[1] else "file streams"
+            chk.violation("exe:%s" % what.replace(' ', '-'), "the hexsim executable on run %s: %s differ from the run validated against HexISA (got %r, validated %r)"
+                          % (r['id'], what, got[:2] + (len(got[2]),), want[:2] + (len(want[2]),)), {"p.bin": open(os.path.join(wd, "p.bin"), "rb").read(), "input.bin": bytes(r['input'])})
+    chk.set("executable_runs_repeated", nexe)
+    chk.set("executable_runs_with_file_streams", sum(1 for r in cands[:(60 if tier == "quick" else 1500)] if r['fout']))
     chk.add("runs_validated", nok + nundef)
     chk.add("runs_to_exit_or_limit", nok)
     chk.add("runs_ending_in_undefined_instruction", nundef)
